@@ -66,6 +66,11 @@ def kont_protocol(ctx, rule="SIB-continuations"):
     """kdual is applied to Dual-typed arguments and its result is consumed as a Dual; kpure to primal values."""
     prims = primitives(ctx)
     for name in sorted(prims):
+        own = any(isinstance(f, ast.FunctionDef) and f.name == "prim_jvp_estimate" for f in prims[name][1].body)
+        is_base = any(any((b.id if isinstance(b, ast.Name) else getattr(b, "attr", None)) == name for b in n.bases) for _, n, _ in prims.values())
+        if not own and is_base:
+            # an intermediate base class (shared sample/sample_with_key) that leaves the estimator to its subclasses
+            continue
         ev = mk_ev(ctx)
         dotted = AD + name + ".prim_jvp_estimate"
         s = summarize(ctx, ev, dotted)
@@ -113,6 +118,9 @@ def kont_protocol(ctx, rule="SIB-continuations"):
     # the interpreter side: _sample_dual_kont(*duals: Dual) -> Dual ; _sample_pure_kont(*args) -> list
     node, mod = fnode(ctx, AD + "ADEV.eval_jaxpr_adev")
     fns = {f.name: f for f in ast.walk(node) if isinstance(f, ast.FunctionDef)}
+    if "_sample_dual_kont" not in fns:
+        # the equation loop (and with it the continuation closures) hoisted into a module-level function of genjax.adev
+        fns = {f.name: f for top in mod.tree.body if isinstance(top, ast.FunctionDef) for f in ast.walk(top) if isinstance(f, ast.FunctionDef) and f is not top}
     ok = "_sample_dual_kont" in fns and "_sample_pure_kont" in fns and fns["_sample_dual_kont"].args.vararg is not None and fns["_sample_pure_kont"].args.vararg is not None
     if ok:
         ctx.ok(rule, "adev.ADEV.eval_jaxpr_adev (continuations)", "dual continuation takes *duals, pure continuation takes *args")
